@@ -105,6 +105,7 @@ func newC18World(c *sim.Case, n int, storeMode string, timeouts [][2]int, discov
 			ClientSecretConfig: &oidcv1.OIDCConfig_ClientSecret{ClientSecret: "secret-" + f.name}, Scopes: []string{"openid"},
 			CookieNamePrefix: f.prefix, IdToken: &oidcv1.TokenConfig{Header: "authorization", Preamble: "Bearer"},
 			AccessToken:            &oidcv1.TokenConfig{Header: "x-access-token"},
+			Logout:                 &oidcv1.LogoutConfig{Path: "/logout-" + f.name, RedirectUri: f.idp.EndSessionURL()},
 			AbsoluteSessionTimeout: uint32(timeouts[i][0]), IdleSessionTimeout: uint32(timeouts[i][1]),
 		}
 		if disc {
@@ -282,7 +283,32 @@ func c18Prop(c *sim.Case) {
 	nt := false
 	steps := 1 + sim.Pick(c, "nsteps", 5)
 	for i := 0; i < steps; i++ {
-		switch sim.Weighted(c, "attack", 4, 4, 4, 4, 4, 4, 1) {
+		switch sim.Weighted(c, "attack", 4, 4, 4, 4, 4, 4, 1, 3) {
+		case 7: // a browser that holds sessions at both filters logs out at B: A's session and A's cookie are none of B's business
+			sidB := w.login(B, "erin")
+			if sidB == "" {
+				c.Violation("login-failed", "login through filter %s failed: %s", B.name, w.why)
+			}
+			createdBy[sidB] = B
+			both := A.cookieName() + "=" + sidA + "; " + B.cookieName() + "=" + sidB
+			if sim.Bool(c, "logout.order") {
+				both = B.cookieName() + "=" + sidB + "; " + A.cookieName() + "=" + sidA
+			}
+			r := w.check(B, "/logout-"+B.name, both)
+			c.Logf("logout at B with both cookies -> %v", r)
+			for _, sc := range r.SetCookies() {
+				if sc.Name == A.cookieName() {
+					c.Violation("logout-touches-foreign-cookie", "the logout answer of filter %s sets %s's cookie: %q", B.name, A.name, sc.Raw)
+				}
+			}
+			// also on a shared store: the session of A was created through A and is named by A's cookie only
+			if r2 := w.check(A, "/app", A.cookieName()+"="+sidA); !r2.OK {
+				c.Violation("logout-ends-foreign-session", "after a logout at filter %s the session of filter %s is answered %v", B.name, A.name, r2)
+			}
+			if r3 := w.check(B, "/app", B.cookieName()+"="+sidB); r3.OK {
+				c.Violation("logout-not-effective", "filter %s still honours the session it was asked to log out", B.name)
+			}
+			nt = true
 		case 6: // B's own session outlives its ID token: the refresh must go to B's provider with B's credentials
 			old := B.idp.IDTTL
 			B.idp.IDTTL = time.Second
